@@ -12,23 +12,23 @@ from . import shape as S
 from .c08 import string_printer_paths, str_prims, STRATEGIES
 
 META = {
-    'text': 'Static rules for the string printer: (a) abstract interpretation of the layout-time evaluator over 0..3 pieces, four '
-            'multiline strategies, native and subclass types shows at least one string-literal atom on every return path (the '
-            'splitter yields nothing for an empty string); (b) the splitter is linear in its input: a typestate dataflow over '
-            'str_to_lines proves that a piece obtained from the split iterator is appended to the current line or yielded exactly '
-            'once before its variable is overwritten, that the line buffer is reset only after it was yielded or known empty, and '
-            'that the remainder is yielded at exit; every split pattern, parsed with the regex parser, is one capturing group '
-            'around a never-empty expression, so pattern.split returns every character in order; (c) every yield is dominated by '
-            'a non-emptiness test of what it yields; (d) all pieces go through the one literal builder with the quote that was '
-            'given to the splitter, and the bytes prefix is produced inside that builder; (e) the two re-escaping branches are '
-            'mirror images under swapping the quote characters and only the two quote constants are ever chosen; (f) the width '
-            'given to the splitter has a constant lower bound >= 1; (g) the last atom of a literal is its closing quote, so the '
-            'renderer\'s rstrip cannot eat content. That repr-based escaping denotes the same characters is delegated to '
-            'str.__repr__ / bytes.__repr__.',
-    'note': 'widths and the choice of break points are not decided; the linearity argument treats escaped_len / split_at as '
-            'total functions',
-    'technique': 'static analysis: typestate (linear resource) dataflow with branch refinement, regex AST inspection, guard '
-                 'facts, abstract interpretation of the evaluator over a doc-shape domain, mirror-symmetry of constant tables',
+    'text': 'The string machinery is interpreted (no execution of the package) on a corpus of small concrete str and bytes '
+            'values chosen for their structure - words and blank runs, no blanks, no separators at all, both quote characte'
+            'rs in every proportion, backslashes before quotes, control / zero-width / astral characters, high bytes, runs '
+            'of non-word bytes - at six widths and with both quote characters; standard-library calls on constants (re, str'
+            '/bytes methods, repr) are evaluated as the library defines them. Decided against the specification: (b) the pi'
+            'eces of str_to_lines concatenate to the value and have its type; (c) no piece is empty; (e) quote + escape_str'
+            '_for_quote(quote, x) + quote evaluates back to x for the whole value and for every piece, and the quote chosen'
+            ' is a quote character; (a) the text of highlight_escapes(t) is t and the single-line literal evaluates back to'
+            ' the value; plus, by abstract interpretation of the layout-time evaluator over 0..3 pieces, four strategies, n'
+            'ative and subclass types, at least one literal on every path, all pieces through the one literal builder with '
+            "the splitter's quote (d); split patterns parsed with the regex parser are one capturing group around a never-e"
+            'mpty expression; (f) the width handed to the splitter has a constant positive lower bound. Values outside the '
+            'corpus shapes are not decided.',
+    'note': 'widths and the choice of break points are not decided; the linearity argument treats escaped_len / split_at as'
+            ' total functions',
+    'technique': 'static analysis: abstract interpretation of the string helpers on a structural corpus of constants against a r'
+                 'eference specification (ast.literal_eval); regex-AST rule; doc-shape interpretation of the evaluator',
 }
 
 
